@@ -177,6 +177,11 @@ def gen_api(rng, tier, sy):
     for e in (ENVS[0], ENVS[1], ENVS[2]) if quick else ENVS:
         cases.append(env_hdr(e, sy).replace("API ", "APIS ", 1) + " ; W=%d X=%d R=%d K=%d" %
                      (rng.choice([2, 4, 6]), rng.choice([1, 2, 3]), 40 if quick else 400, rng.choice([3, 8, 16])))
+        # the same after an external thread has freed more stream-created tasklets than two buckets hold
+        # (descriptor buckets travel external pool -> global pool; they must never reach the stack pool)
+        cases.append(env_hdr(e, sy).replace("API ", "APIS ", 1) + " ; W=%d X=%d R=%d K=%d T=%d" %
+                     (rng.choice([2, 4]), rng.choice([1, 2]), 20 if quick else 200, rng.choice([16, 32, 64]),
+                      min(8192, 3 * max(e["MS"], e["MD"]) + rng.choice([1, 5, 17]))))
     return cases
 
 
